@@ -5,7 +5,7 @@ rows = []
 for i in range(1, 18):
     pid = "C%02d" % i
     q = json.load(open("/verif/evidence/%s.json" % pid)) if os.path.exists("/verif/evidence/%s.json" % pid) else None
-    tp = "/verif/work/ev-thorough/%s.json" % pid
+    tp = "/verif/evidence_thorough/%s.json" % pid
     t = json.load(open(tp)) if os.path.exists(tp) else None
     t = t if t and t.get("tier") == "thorough" else None
 
